@@ -176,3 +176,11 @@ Theorem C10_pin_tables_compile :
   (if eject_compiled then true else false) && (if grammar_compiled then true else false) &&
   (if cli_validate_compiled then true else false) && (if cli_write_compiled then true else false) = true.
 Proof. exact pin_tables_compile. Qed.
+
+(* ---- source-text pins (generated by harness/pinsets.py) ---- *)
+(* every function of these modules is, text for text (comments and docstrings excluded), the one the models of this
+   property were written against and validated against: harness/translate/srcdigest_t.py, Src/Pin_*.v *)
+From OV Require Import Gen.SrcDigestGen Src.Pin_mcp_validate Src.Pin_mcp_write Src.Pin_mcp_eject Src.Pin_mcp_compile_grammar Src.Pin_core_validator Src.Pin_schemas_loader.
+Theorem C10_pin_source_text :
+  src_mcp_validate_pinned /\ src_mcp_write_pinned /\ src_mcp_eject_pinned /\ src_mcp_compile_grammar_pinned /\ src_core_validator_pinned /\ src_schemas_loader_pinned.
+Proof. exact (conj src_mcp_validate_pinned_ok (conj src_mcp_write_pinned_ok (conj src_mcp_eject_pinned_ok (conj src_mcp_compile_grammar_pinned_ok (conj src_core_validator_pinned_ok src_schemas_loader_pinned_ok))))). Qed.
